@@ -286,7 +286,8 @@ fn signed_builder_scenarios(rep: &Report) {
 fn run(rep: &Report) {
     signed_builder_scenarios(rep);
     let env = drive::env();
-    let thorough = rep.tier == mc::Tier::Thorough;
+    // both tiers enumerate the same space (about ten seconds)
+    let thorough = true;
     let phi = Sx::int(1).tree_hash();
     let mut cases: Vec<Case> = Vec::new();
     // set 1: every amount x puzzle kind x <=1 letter (letters refer to the identity-puzzle coin)
@@ -332,7 +333,7 @@ fn run(rep: &Report) {
         spends: vec![GSpend::identity(P1, 5, Sx::list(&[drive::cond(51, &[Sx::atom(&phi), Sx::int(3)])])), GSpend::identity(a_id, 3, Sx::list(&[drive::cond(76, &[])])), GSpend::identity(P2, 5, Sx::nil())],
         wrong_hash: false,
     });
-    rep.set_rule("bundles: (1) one spend x 23 amounts (every encoding length class) x 4 puzzle kinds (identity, quoted, apply-wrapper, raise) x <=1 of ~108 interaction letters (quick: non-identity puzzles only for 3 amounts) + a wrong-declared-hash letter per amount; (2) amount 5, identity puzzle, every ordered pair of letters (quick: one third); (3) two spends sharing the puzzle with <=1 letter each; (4) an ephemeral chain of three; (5) three signed bundles through each builder with the middle one declined after serialisation, validated with signature checking; each under {MEMPOOL_MODE} x {COST_CONDITIONS} x {INTERNED_GENERATOR} through run_spendbundle and run_block_generator2 on solution_generator, solution_generator_backrefs, BlockBuilder and InternedBlockBuilder output. distinct = distinct bundles");
+    rep.set_rule("bundles: (1) one spend x 23 amounts (every encoding length class) x 4 puzzle kinds (identity, quoted, apply-wrapper, raise) x <=1 of ~108 interaction letters + a wrong-declared-hash letter per amount; (2) amount 5, identity puzzle, every ordered pair of letters; (3) two spends sharing the puzzle with <=1 letter each; (4) an ephemeral chain of three; (5) three signed bundles through each builder with the middle one declined after serialisation, validated with signature checking; each under {MEMPOOL_MODE} x {COST_CONDITIONS} x {INTERNED_GENERATOR} through run_spendbundle and run_block_generator2 on solution_generator, solution_generator_backrefs, BlockBuilder and InternedBlockBuilder output. distinct = distinct bundles");
     rep.assume("mempool-only eligibility flags are masked; summaries are compared order-insensitively (generators list the spends in reverse bundle order)");
     rep.extra("cases", json!(cases.len()));
     cases.par_chunks(32).for_each(|chunk| {
